@@ -102,8 +102,9 @@ fn known_dev(out: &mut Vec<Witness>, label: String, got: Option<String>, deviant
         }
     } else { cmp(out, label, got, Some(grammar.to_string())); }
 }
+static NO_CAP: std::sync::atomic::AtomicBool = std::sync::atomic::AtomicBool::new(false);
 fn cmp(out: &mut Vec<Witness>, label: String, got: Option<String>, want: Option<String>) {
-    if out.iter().filter(|w| !w.observed.starts_with("known-deviation(")).count() >= 6 { return; }
+    if !NO_CAP.load(std::sync::atomic::Ordering::Relaxed) && out.iter().filter(|w| !w.observed.starts_with("known-deviation(")).count() >= 6 { return; }
     match (&got, &want) {
         (Some(g), Some(w)) if g == w => {}
         (None, None) => {}
@@ -323,3 +324,6 @@ pub fn search(_obl: &str) -> Vec<Witness> {
     }
     out
 }
+
+/// replay: the case with this label, re-evaluated on the current tree (the search is cheap: it is simply re-run and filtered)
+pub fn check_one(label: &str) -> Option<Witness> { NO_CAP.store(true, std::sync::atomic::Ordering::Relaxed); search("").into_iter().find(|w| w.input == label && !w.observed.starts_with("known-deviation(")) }
